@@ -120,7 +120,7 @@ class C05(Profile):
               'explicit_modified_sub_ms', 'sco_locked_refused', 'revoked_refused', 'reserialised_head',
               'none_removed_property', 'chain_len>=5', 'granular_marking_as_version_minter', 'remove_custom_stix',
               'unmodifiable_removal_refused', 'custom_registered_type_chain', 'same_name_registered_as_2.1_observable',
-              'unmodifiable_names_inside_custom_properties', 'modified_given_as_nothing']
+              'unmodifiable_names_inside_custom_properties', 'modified_given_as_nothing', 'custom_content_only_in_a_nested_member']
     rule = ('plans are generated from run_seed (1-4 chains over every versionable type of both spec versions in object / '
             'dict / unregistered-dict / SCO forms, 10-60 versioning ops each with a steered clock reading); a run is '
             'non-trivial when >=1 op produced a new version AND >=1 oracle comparison ran on it; distinct = distinct plan digests')
@@ -257,7 +257,17 @@ class C05(Profile):
             return o.value if o.ok else None
         d = C.build(ver, ch['type'], ch['id_n'], ch['created_us'], ch['mod_us'], ch['rich'], ch['common'])
         if ch.get('custom'):
-            d['x_seed'] = 'custom'
+            # custom content at the top level - or, for a third of such heads, only INSIDE the object, in a member that is not the
+            # last one of its container (an embedded observable, an external reference): the object is custom all the same
+            if ch['id_n'] % 3 == 0 and isinstance(d.get('objects'), dict) and len(d['objects']) > 1:
+                first = sorted(d['objects'])[0]
+                d['objects'] = dict(d['objects'], **{first: dict(d['objects'][first], x_seen_by='sensor-1')})
+                world.probe('custom_content_only_in_a_nested_member')
+            elif ch['id_n'] % 3 == 0 and isinstance(d.get('external_references'), list) and len(d['external_references']) > 1:
+                d['external_references'] = [dict(d['external_references'][0], x_note='n')] + list(d['external_references'][1:])
+                world.probe('custom_content_only_in_a_nested_member')
+            else:
+                d['x_seed'] = 'custom'
         if form == 'obj':
             o = call(stix2.parse, d, allow_custom=bool(ch.get('custom')))
             return o.value if o.ok else None
@@ -395,6 +405,9 @@ class C05(Profile):
                 world.stat('op_skipped')       # these heads carry custom versioning properties that the x_ convention does not cover
                 return
             xs = [k for k in hjson if k.startswith('x_')]
+            if '"x_seen_by"' in json.dumps(hjson) or '"x_note"' in json.dumps(hjson):
+                world.stat('op_skipped')       # remove_custom_stix is documented for toplevel x_ properties; content inside members stays
+                return
             if hjson['type'].startswith('x-'):
                 out0 = call(V.remove_custom_stix, head)
                 if not out0.ok or out0.value is not None:
